@@ -226,13 +226,23 @@ class Fn:
         return f"<Fn {self.ref}>"
 
 
+class _PlainAssign(ast.NodeTransformer):
+    """`x: T = v` is read as `x = v` (same binding, same effect; `x: T` alone declares nothing at run time and is kept).
+    Adding or removing a variable annotation is a behaviour-preserving edit: no rule may decide differently because of it."""
+    def visit_AnnAssign(self, n: ast.AnnAssign):
+        self.generic_visit(n)
+        if n.value is None:
+            return n
+        return ast.copy_location(ast.Assign(targets=[n.target], value=n.value, type_comment=None), n)
+
+
 class Module:
     def __init__(self, path: str, rel: str, modname: str, src: str):
         self.path = path
         self.rel = rel  # e.g. reactivex/operators/_take.py
         self.modname = modname  # e.g. reactivex.operators._take
         self.src = src
-        self.tree = ast.parse(src, filename=path)
+        self.tree = _PlainAssign().visit(ast.parse(src, filename=path))
         self.parents: Dict[ast.AST, ast.AST] = {}
         for n in ast.walk(self.tree):
             for ch in ast.iter_child_nodes(n):
